@@ -70,10 +70,36 @@ def parse_body_item(txt):
         m = re.match(r'^for\s+(.*?)\s+in\s+(.*)$', t, re.S)
         return {'t': 'for', 'p': m.group(1).strip(), 'e': m.group(2).strip()}
     if t.startswith('agg '):
-        m = re.match(r'^agg\s+(.*?)\s*=\s*(.*?)\((.*?)\)\s+in\s+(.*)$', t, re.S)
-        pat, aggf, bound, cl = m.group(1), m.group(2), m.group(3), m.group(4)
+        # agg PAT = AGGREGATOR(bound args) in rel(args)   - the aggregator may itself be a call: (percentile(50.0))(v)
+        eq = t.index('=')
+        pat = t[4:eq].strip()
+        rest = t[eq + 1:]
+        # last top-level ` in `
+        depth = 0
+        cut = None
+        for i in range(len(rest)):
+            ch = rest[i]
+            if ch in '([{':
+                depth += 1
+            elif ch in ')]}':
+                depth -= 1
+            elif depth == 0 and rest.startswith(' in ', i):
+                cut = i
+        call, cl = rest[:cut].strip(), rest[cut + 4:].strip()
+        assert call.endswith(')')
+        depth = 0
+        start = None
+        for i in range(len(call) - 1, -1, -1):
+            if call[i] == ')':
+                depth += 1
+            elif call[i] == '(':
+                depth -= 1
+                if depth == 0:
+                    start = i
+                    break
+        aggf, bound = call[:start].strip(), call[start + 1:-1]
         rel, args = parse_clause(cl)
-        return {'t': 'agg', 'pat': pat.strip(), 'agg': aggf.strip(), 'bound': [b.strip() for b in split_top(bound)] if bound.strip() else [],
+        return {'t': 'agg', 'pat': pat, 'agg': aggf, 'bound': [b.strip() for b in split_top(bound)] if bound.strip() else [],
                 'rel': rel, 'args': args}
     if t.startswith('!'):
         rel, args = parse_clause(t[1:])
